@@ -14,6 +14,7 @@ Contract evaluated per case (nothing is held when generate_actions is called - t
 """
 import itertools, random
 from common import *
+from c05_par import run_parallel
 
 PRELUDE = '''\
 import os, sys, warnings
@@ -390,7 +391,19 @@ def all_runs(res, rep, rnd, max_runs=None, recalc_too=False):
     return True
 
 
+def dag_item(res, item):
+    idx, n, deps = item
+    rnd = random.Random(idx * 31337 + 5)
+    for v in ([0, 1, 2] if n <= 4 else [idx % 3]):
+        if res.expired():
+            return
+        all_runs(res, make_rep(n, deps, rnd, v), rnd)
+
+
 def run(res, tier, seed):
+    import gc
+    gc.collect()
+    gc.freeze()       # execute_actions calls gc.collect() per step: keep it from rescanning the imported libraries
     quick = tier == "quick"
     nmax = 4 if quick else 5
     res.bound = ("every DAG on <= %d elements x every non-empty target set x step sizes 1..n+1 (and 1000), elements as "
@@ -398,25 +411,25 @@ def run(res, tier, seed):
                  "(two-argument, lambda, other space, ItemSpace cells, input leaves, uncached pass-through) drawn per "
                  "DAG; %s") % (nmax, "every 8th DAG on 5 elements with 24 sampled (targets, step) pairs; seeded "
                                "samples on 6 elements" if quick else "seeded samples on 6-7 elements")
-    res.rule = ("exhaustive product DAG x target set x step size for the representations 'scalar' and (DAG index "
-                "alternating) 'parametrised' / 'mixed'; one evaluation = generate_actions + execute_actions on a model "
+    res.rule = ("exhaustive product DAG x target set x step size, for <= 4 elements in each of the representations "
+                "'scalar' / 'parametrised' / 'mixed', for 5 elements in one of them (rotating with the DAG index); one evaluation = generate_actions + execute_actions on a model "
                 "holding no calculated value; non-trivial = the targets depend on more than one calculated element or "
                 "there are several targets; distinct = distinct (model, targets, step size)")
     ok = True
     idx = 0
+    items = []
     for n in range(1, nmax + 1):
         for mask, deps in dags(n):
             idx += 1
-            rnd = random.Random(idx * 31337 + 5)
-            variants = [0, 1, 2] if n <= 3 else [0, 1 + idx % 2]
-            for v in variants:
-                if res.expired():
-                    ok = False
-                    break
-                rep = make_rep(n, deps, rnd, v)
-                ok &= all_runs(res, rep, rnd)
-            if not ok:
+            items.append((idx, n, deps))
+    if quick:
+        for it in items:
+            if res.expired():
+                ok = False
                 break
+            dag_item(res, it)
+    else:
+        ok = run_parallel(res, dag_item, items, chunk=8, reserve=0.2)
     if quick and ok:
         k = 0
         for mask, deps in dags(5):
